@@ -51,6 +51,16 @@ def run_one(pid, name, patch):
             cmd += ["--sub", subs]
         r = subprocess.run(cmd, env=env, capture_output=True, text=True, cwd=HERE)
         buckets = [l.strip() for l in r.stdout.splitlines() if l.strip().startswith("subcheck=")]
+        if os.environ.get("VP_HARVEST") and "revert" in name:
+            # keep (at most 3) shrunk failing cases of reverted fixes as committed regression cases
+            got = sorted(glob.glob(os.path.join(td, "replays", pid, "*.json")))[:3]
+            os.makedirs(os.path.join(HERE, "regress", pid), exist_ok=True)
+            for i, g in enumerate(got):
+                with open(g) as f:
+                    rj = json.load(f)
+                rj["note"] = f"fails when the fix is reverted ({name})"
+                with open(os.path.join(HERE, "regress", pid, f"{name}-{i}.json"), "w") as f:
+                    json.dump(rj, f, indent=1)
         return dict(property=pid, mutant=name, status={1: "killed", 0: "SURVIVED", 2: "harness-error"}.get(r.returncode, str(r.returncode)),
                     buckets=buckets[:6], wall_s=round(time.time() - t0), stderr=r.stderr[-1500:] if r.returncode == 2 else "")
     finally:
